@@ -190,6 +190,61 @@ def joint_case(args):
     return args[:4] + (dtype,), errs, nfiles
 
 
+def _no_gtf_title(data):
+    """the first comment line of the GTFs names the experiment"""
+    return b"\n".join(l for l in data.split(b"\n") if not l.endswith(b"IsoQuant generated GTF"))
+
+
+def naming_case(args):
+    """experiment names that collide with each other or with the names IsoQuant makes up for duplicates (<prefix><index>): every experiment
+       still gets an output folder of its own whose files equal its stand-alone run"""
+    names, syntax, scratch = args
+    from vlib import run
+    ids = ["A", "B", "C"][:len(names)]
+    w, d, paths = prepare(scratch, "naming_%s_%s" % ("-".join(names), syntax))
+    errs = []
+    alone = {}
+    for x in ids:
+        out = os.path.join(d, "alone_" + x)
+        rc = run.run_isoquant(["--output", out, "--reference", paths["ref"], "--bam", paths[x], "--data_type", "nanopore", "--prefix", "P",
+                               "--threads", "1", "--genedb", paths["gtf"], "--complete_genedb"], paths["home"], os.path.join(d, "alone.txt"))
+        if rc != 0:
+            shutil.rmtree(d, ignore_errors=True)
+            return args[:2], [("alone-run-failed", "stand-alone %s exit %d" % (x, rc))]
+        alone[x] = {k.replace("P.", "", 1): _no_gtf_title(v) for k, v in run.read_tree(os.path.join(out, "P")).items()}
+    out = os.path.join(d, "joint")
+    if syntax == "yaml":
+        import yaml
+        cfg = os.path.join(d, "in.yaml")
+        with open(cfg, "w") as f:
+            yaml.safe_dump([{"data format": "bam"}] + [{"name": n, "long read files": [paths[x]]} for n, x in zip(names, ids)], f)
+        inp = ["--yaml", cfg]
+    else:
+        cfg = os.path.join(d, "in.list")
+        with open(cfg, "w") as f:
+            for n, x in zip(names, ids):
+                f.write("#%s\n%s\n" % (n, paths[x]))
+        inp = ["--bam_list", cfg]
+    rc = run.run_isoquant(["--output", out, "--reference", paths["ref"], "--data_type", "nanopore", "--prefix", "OUT", "--threads", "1",
+                           "--genedb", paths["gtf"], "--complete_genedb"] + inp, paths["home"], os.path.join(d, "joint.txt"))
+    if rc != 0:
+        errs.append(("naming:joint-run-failed", "names %s: exit %d: %s" % (names, rc, open(os.path.join(d, "joint.txt")).read()[-300:])))
+    else:
+        folders = sorted(f for f in os.listdir(out) if os.path.isdir(os.path.join(out, f)))
+        trees = {}
+        for f in folders:
+            trees[f] = {k.replace(f + ".", "", 1): _no_gtf_title(v) for k, v in run.read_tree(os.path.join(out, f)).items()}
+        if len(folders) != len(ids):
+            errs.append(("naming:folder-count", "experiments named %s: %d output folders %s for %d experiments" % (names, len(folders), folders, len(ids))))
+        for x in ids:
+            if not any(t == alone[x] for t in trees.values()):
+                errs.append(("naming:experiment-lost", "experiments named %s (%s): no output folder holds the results of experiment %s (folders %s)" %
+                             (names, syntax, x, folders)))
+    shutil.rmtree(d, ignore_errors=True)
+    return args[:2], errs
+
+
+NAMINGS = [("S", "S"), ("OUT1", "A", "A"), ("OUT2", "A", "A"), ("A", "A", "OUT1"), ("A", "A", "A")]
 MENU = "ABCDEF"
 
 
@@ -227,6 +282,10 @@ def run(ctx):
         for kk, msg in errs:
             ctx.violation(kk, "sequence %s threads %d syntax %s grouped %d data type %s: %s" % (list(key[0]), key[1], key[2], key[3], key[4], msg),
                           {"sequence": list(key[0]), "threads": key[1], "syntax": key[2], "grouped": key[3], "dtype": key[4]})
+    nj = [(n, sx, ctx.scratch) for n in NAMINGS for sx in ("yaml", "list")]
+    for key, errs in core.pmap(naming_case, nj):
+        for kk, msg in errs:
+            ctx.violation(kk, msg, {"naming": list(key[0]), "syntax": key[1]})
     ctx.note("%d experiment sequences (length <=%d) x threads x syntax x grouping = %d joint runs; %d files compared with stand-alone runs" %
              (len(seqs), k, len(jobs), nfiles))
     ctx.coverage.update({
@@ -241,5 +300,8 @@ def run(ctx):
 
 
 def replay(ctx, case):
+    if "naming" in case:
+        key, errs = naming_case((tuple(case["naming"]), case["syntax"], ctx.scratch))
+        return errs[0][1] if errs else None
     key, errs, n = joint_case((tuple(case["sequence"]), case["threads"], case["syntax"], case["grouped"], ctx.scratch, case.get("dtype", "nanopore")))
     return errs[0][1] if errs else None
